@@ -31,3 +31,133 @@ package kvcache
 //@   ensures result.1 != nil ==> result.0 == 0
 //@   loop 1 invariant 0 <= start && 0 <= count && start + count == rangeindex + 1
 //@   loop 1 invariant forall k int :: start <= k && k <= rangeindex ==> len(c.cells[k].sequences) == 0
+
+// ---- abstract view: cell j = (c.cells[j].pos, { s | inseq(c.cells[j].sequences, s) }) ----
+//@ spec func inseq(xs []int, s int) bool = exists k int :: 0 <= k && k < len(xs) && xs[k] == s
+
+//@ extern func slices.Contains
+//@   modifies nothing
+//@   ensures result <==> inseq(s, v)
+
+//@ extern func math.Inf
+//@   pure reads none
+
+//@ extern func ml.(Context).Input
+//@   modifies nothing
+//@ extern func ml.(Context).FromFloatSlice
+//@   modifies nothing
+//@ extern func ml.(Context).Empty
+//@   modifies nothing
+//@ extern func ml.(Context).Forward
+//@   modifies nothing
+//@ extern func ml.(Tensor).Shape
+//@   modifies nothing
+//@ extern func ml.(Tensor).Copy
+//@   modifies nothing
+
+// buildMask: loops 1 (batch rows i), 2 (history columns j), 3 (padding rows)
+//@ func (*Causal).buildMask
+//@   requires c.config != nil && 1 <= c.config.MaskBatchPadding && c.config.MaskBatchPadding <= 65536 && 1 <= c.config.CachePadding && c.config.CachePadding <= 65536
+//@   requires 0 <= c.curBatchSize && c.curBatchSize <= 1048576 && len(c.curSequences) == c.curBatchSize && len(c.curPositions) == c.curBatchSize
+//@   requires len(c.cells) <= 2147483648 && len(c.cells) % c.config.CachePadding == 0
+//@   requires 0 <= c.curCellRange.min && c.curCellRange.min <= c.curCellRange.max && c.curCellRange.max < len(c.cells)
+//@   modifies c.curCellRange
+//@   loop 1 invariant 0 <= i && i < c.curBatchSize
+//@   loop 2 invariant c.curCellRange.min <= j && j <= c.curCellRange.max + 1
+//@   loop 3 invariant c.curBatchSize * length <= i
+
+// CanResume: loop 1 scans the range of seq.
+//@ func (*Causal).CanResume
+//@   requires 0 <= pos && 1 <= c.windowSize
+//@   requires has(c.cellRanges, seq) && c.cellRanges[seq].min <= c.cellRanges[seq].max ==> 0 <= c.cellRanges[seq].min && c.cellRanges[seq].max < len(c.cells)
+//@   requires forall j int :: 0 <= j && j < len(c.cells) && inseq(c.cells[j].sequences, seq) ==> c.cells[j].pos >= 0 && has(c.cellRanges, seq) && c.cellRanges[seq].min <= j && j <= c.cellRanges[seq].max
+//@   modifies nothing
+//@   ensures c.windowSize == 2147483647 ==> result
+//@   ensures result && c.windowSize != 2147483647 ==> exists j int :: 0 <= j && j < len(c.cells) && inseq(c.cells[j].sequences, seq)
+//@   ensures result && c.windowSize != 2147483647 ==> forall j int :: 0 <= j && j < len(c.cells) && inseq(c.cells[j].sequences, seq) ==> max(0, c.cells[j].pos - c.windowSize) <= max(0, pos - c.windowSize)
+//@   ensures !result ==> c.windowSize != 2147483647
+//@   ensures !result ==> (forall j int :: 0 <= j && j < len(c.cells) ==> !inseq(c.cells[j].sequences, seq)) || (exists j int :: 0 <= j && j < len(c.cells) && inseq(c.cells[j].sequences, seq) && max(0, c.cells[j].pos - c.windowSize) > max(0, pos - c.windowSize))
+//@   loop 1 invariant seqRange.min <= i && (i <= seqRange.max + 1 || i == seqRange.min) && -1 <= last
+//@   loop 1 invariant forall k int :: seqRange.min <= k && k < i && inseq(c.cells[k].sequences, seq) ==> c.cells[k].pos <= last
+//@   loop 1 invariant last == -1 ==> forall k int :: seqRange.min <= k && k < i ==> !inseq(c.cells[k].sequences, seq)
+//@   loop 1 invariant last != -1 ==> exists k int :: seqRange.min <= k && k < i && inseq(c.cells[k].sequences, seq) && c.cells[k].pos == last
+
+//@ extern func ml.(Backend).NewContext
+//@   modifies nothing
+//@ extern func ml.(Context).Close
+//@   modifies nothing
+//@ extern func ml.(Context).Compute
+//@   modifies nothing
+//@ extern func ml.(Context).FromIntSlice
+//@   modifies nothing
+//@ extern func ml.(Tensor).Dim
+//@   modifies nothing
+//@ extern func ml.(Tensor).Stride
+//@   modifies nothing
+//@ extern func ml.(Tensor).View
+//@   modifies nothing
+
+// The model's RoPE shift callback (field c.shiftFn) builds graph nodes only: it does not
+// write cache metadata (assumption A-shiftfn).
+//@ extern func (Causal).shiftFn
+//@   modifies nothing
+
+// shift: only the offset vector handed to the RoPE shift and the bounds are specified
+// (loop 1 fills the vector, loop 2 runs over the layers).
+//@ func (*Causal).shift
+//@   requires has(c.cellRanges, seq) && 0 <= c.cellRanges[seq].min && c.cellRanges[seq].min <= c.cellRanges[seq].max && c.cellRanges[seq].max < len(c.cells)
+//@   requires len(c.cells) <= 2147483648 && !fresh(c.cells)
+//@   requires forall j int :: 0 <= j && j < len(c.cells) ==> !fresh(c.cells[j].sequences)
+//@   modifies nothing
+//@   assert-at call FromIntSlice #1 : len(offsets) == seqRange.max - seqRange.min + 1
+//@   assert-at call FromIntSlice #1 : forall k int :: 0 <= k && k < len(offsets) ==> offsets[k] == ite(inseq(c.cells[seqRange.min+k].sequences, seq) && c.cells[seqRange.min+k].pos >= beginIndex, offset, 0)
+//@   loop 1 invariant forall k int :: 0 <= k && k <= rangeindex ==> offsets[k] == ite(inseq(c.cells[seqRange.min+k].sequences, seq) && c.cells[seqRange.min+k].pos >= beginIndex, offset, 0)
+//@   loop 1 invariant forall k int :: rangeindex < k && k < len(offsets) ==> offsets[k] == 0
+
+// slices.DeleteFunc / ContainsFunc take a predicate closure; fnsat(f, v) is "f(v) is true".
+//@ spec func fnsat(f int, v int) bool
+//@ extern func slices.DeleteFunc
+//@   modifies s[all]
+//@   ensures len(result) <= len(s)
+//@   ensures forall v int :: inseq(result, v) <==> (old(inseq(s, v)) && !fnsat(del, v))
+//@ extern func slices.ContainsFunc
+//@   modifies nothing
+//@   ensures result <==> exists v int :: inseq(s, v) && fnsat(f, v)
+//@ extern func errors.New
+//@   modifies nothing
+//@   ensures result != nil
+
+//@ func (*Causal).Remove
+//@   requires len(c.cells) <= 2147483648 && !fresh(c.cells)
+//@   requires forall j int :: 0 <= j && j < len(c.cells) ==> !fresh(c.cells[j].sequences)
+//@   assume-at call slices.DeleteFunc #1 : forall v int :: fnsat(arg1, v) <==> v == seq
+//@   assume-at call slices.ContainsFunc #1 : forall v int :: fnsat(arg1, v) <==> v != seq
+//@   loop 1 invariant seqRange.min == 9223372036854775807 || (0 <= seqRange.min && seqRange.min <= seqRange.max && seqRange.max <= rangeindex)
+
+//@ extern func log/slog.Debug
+//@   modifies nothing
+//@ extern func ml.(Context).MaxGraphNodes
+//@   modifies nothing
+
+// moveCells (trusted: View/Copy row semantics of the backend, assumption A-rows): copies
+// the K/V rows [src, src+length) to [dst, dst+length) in order. c.ghost_dat[j] is the
+// identity of the row stored at location j.
+//@ extern func (*Causal).moveCells
+//@   requires 0 <= src && 0 <= dst && 0 <= length && dst + length <= src && src + length <= len(c.cells)
+//@   modifies c.ghost_dat[all]
+//@   ensures forall k int :: 0 <= k && k < length ==> c.ghost_dat[dst+k] == old(c.ghost_dat[src+k])
+//@   ensures forall j int :: j < dst || dst + length <= j ==> c.ghost_dat[j] == old(c.ghost_dat[j])
+
+// defrag: loops 1 (count layers), 2 (dst ascending), 3 (src descending), 4 (sequences), 5 (cells)
+//@ func (*Causal).defrag
+//@   requires len(c.cells) <= 2147483648 && !fresh(c.cells)
+//@   requires forall j int :: 0 <= j && j < len(c.cells) ==> !fresh(c.cells[j].sequences)
+//@   requires forall j int :: c.ghost_dat[j] == j
+//@   ensures forall j int, g int :: 0 <= j && j < len(c.cells) && g == c.ghost_dat[j] && len(c.cells[j].sequences) != 0 ==> 0 <= g && g < len(c.cells) && c.cells[j].pos == old(c.cells[g].pos) && c.cells[j].sequences == old(c.cells[g].sequences)
+//@   loop 2 invariant 0 <= dst && -1 <= src && src < len(c.cells) && dst <= src + 1 && 0 <= pendingLen
+//@   loop 2 invariant pendingLen > 0 ==> 0 <= pendingDst && pendingDst + pendingLen <= dst && pendingDst + pendingLen <= src && src <= pendingSrc && pendingSrc + pendingLen <= len(c.cells)
+//@   loop 2 invariant forall j int :: pendingLen == 0 || j >= pendingDst ==> c.ghost_dat[j] == j
+//@   loop 2 invariant forall j int, g int :: 0 <= j && j < dst && (pendingLen == 0 || j < pendingDst || j >= pendingDst + pendingLen) && g == c.ghost_dat[j] && len(c.cells[j].sequences) != 0 ==> 0 <= g && g < len(c.cells) && c.cells[j].pos == old(c.cells[g].pos) && c.cells[j].sequences == old(c.cells[g].sequences)
+//@   loop 2 invariant forall j int :: dst <= j && j <= src ==> (j == src && len(c.cells[j].sequences) == 0) || (c.cells[j].pos == old(c.cells[j].pos) && c.cells[j].sequences == old(c.cells[j].sequences))
+//@   loop 2 invariant forall k int :: 0 <= k && k < pendingLen ==> len(c.cells[pendingDst+k].sequences) != 0 && c.cells[pendingDst+k].pos == old(c.cells[pendingSrc+k].pos) && c.cells[pendingDst+k].sequences == old(c.cells[pendingSrc+k].sequences)
+//@   loop 3 invariant dst <= src && src < len(c.cells) && (pendingLen > 0 ==> src <= pendingSrc)
